@@ -13,3 +13,4 @@ pub mod faults;
 pub mod seeds;
 pub mod trap;
 pub mod strmap;
+pub mod contain;
